@@ -165,6 +165,12 @@ def roundtrip(stack, c, serde_name, key, value, chunks, coll):
             return "get_many(%s) returned keys %r with %r" % (coll, sorted(map(repr, many.keys())), repr(many.get(key))[:80])
         if many[other] not in (b"OTHER", "OTHER"):
             return "get_many returned another key's value for %r: %r" % (other, many[other])
+        # a key named more than once: every present requested key still comes back under itself with its own value
+        for fetch in ("get_many", "gets_many"):
+            rep = getattr(cl, fetch)([key, key, other, b"absent", other, key])
+            vals_ = {k2: (v2[0] if fetch == "gets_many" else v2) for k2, v2 in rep.items()}
+            if set(vals_) != {other, key} or vals_[key] != want or type(vals_[key]) is not type(want) or vals_[other] not in (b"OTHER", "OTHER"):
+                return "%s with repeated keys [key, key, other, absent, other, key] returned %r" % (fetch, repr(rep)[:160])
         # a batch of values of DIFFERENT kinds stored by one set_many: each comes back as itself (each item has its own flags)
         batch = {b"m-bytes": b"raw\r\n", b"m-text": "text", b"m-int": 7, b"m-bytes2": b"\xff\xfe"}
         if serde_name in ("none", "custom", "legacy"):
@@ -251,7 +257,7 @@ def correspondence(ctx):
     for i in range(200 if ctx.quick else 2000):
         c = dict(tcp=False, prefix=rng.choice([b"", b"p:"]), default_noreply=False, ignore_exc=False, serde=rng.choice([0, 1, 1, 2, 3, 12]), unicode=True, enc=rng.choice([0, 1]))
         k, v = rng.choice(KEYS[:5]), rng.choice(NASTY[:8] + ["text", 5])
-        ops = [(0, 0, k, v, 0, False, None), (3, k, None), (4, k, None, None), (5, k, 0, None), (6, k, 0, None, None), (7, rng.random() < 0.3, [b"zz", k]), (8, False, [k, b"q"]),
+        ops = [(0, 0, k, v, 0, False, None), (3, k, None), (4, k, None, None), (5, k, 0, None), (6, k, 0, None, None), (7, rng.random() < 0.3, [b"zz", k]), (8, False, [k, b"q"]), (7, False, [k, b"zz", k, b"m9", k]),
                # one set_many with values of different kinds (each item carries its own serializer flags), then fetched together
                (1, [(b"m1", b"raw"), (b"m2", "text"), (b"m3", 7), (b"m4", b"tail")], 0, False, None), (7, False, [b"m1", b"m2", b"m3", b"m4"])]
         srv = Server()
